@@ -65,6 +65,7 @@ def cost_record(R):
         'k_piwc_provided': B(prov('per_injection_well_cost')), 'k_piwc': Q(v('per_injection_well_cost')),
         'k_nprod': Q(s.v('wellbores', 'nprod')), 'k_ninj': Q(s.v('wellbores', 'ninj')),
         'k_c1p_corr': Q(corr_c1p), 'k_c1i_corr': Q(corr_c1i), 'k_lateral': Q(v('cost_lateral_section')),
+        'k_sbt': B(R.cls == 'SBTEconomics'), 'k_junction': Q(s.v('economics', 'cost_to_junction_section', 0.0)),
         'k_stim_valid': B(valid('ccstimfixed')), 'k_stim_fixed': Q(v('ccstimfixed')), 'k_stim_adj': Q(v('ccstimadjfactor')),
         'k_gath_valid': B(valid('ccgathfixed')), 'k_gath_fixed': Q(v('ccgathfixed')), 'k_gath_adj': Q(v('ccgathadjfactor')),
         'k_cpumps': Q(pl('Cpumps')),
@@ -104,8 +105,8 @@ def well_cost_term(R, rows):
     """reported per-well costs vs the regenerated correlation table (only when the correlation branch is used)."""
     s = R.s
     e = lambda a: s.p('economics', a)
-    if e('per_production_well_cost')['valid']:
-        return None
+    if e('per_production_well_cost')['valid'] or R.cls != 'Economics':
+        return None   # (SBTEconomics puts the 1.05 inside its per-well cost and uses the vertical section length)
     if s.has('wellbores', 'numnonverticalsections') and s.p('wellbores', 'numnonverticalsections')['provided']:
         return None
     depth = s.p('reserv', 'depth')
